@@ -188,21 +188,19 @@ func vMkConn(script []byte) (*conn, *vConn) {
 	return &conn{rwc: vc, bufr: bufio.NewReaderSize(vc, 256), bufw: bufio.NewWriterSize(vc, 256)}, vc
 }
 
-// vDrainFSM runs what the FSM goroutine would do with everything queued on fsm.ch, in order.
+// vDrainFSM runs the FSM goroutine's real loop (stateMachine.runLoop) over everything queued on fsm.ch, in order:
+// the queued tasks are moved to a closed channel so that the loop's `range` ends when they are consumed.
 func vDrainFSM(r *Raft) {
 	for len(r.fsm.ch) > 0 {
-		t := <-r.fsm.ch
-		switch t := t.(type) {
-		case fsmApply:
-			r.fsm.onApply(t)
-		case fsmDirtyRead:
-			t.ne.reply(r.fsm.Read(t.ne.cmd))
-		case fsmSnapReq:
-			r.fsm.onSnapReq(t)
-		case fsmRestoreReq:
-			t.err <- r.fsm.onRestoreReq()
-		case lastApplied:
-			t.reply(r.fsm.index)
+		n := len(r.fsm.ch)
+		tmp := make(chan interface{}, n)
+		for k := 0; k < n; k++ {
+			tmp <- <-r.fsm.ch
 		}
+		close(tmp)
+		live := r.fsm.ch
+		r.fsm.ch = tmp
+		r.fsm.runLoop()
+		r.fsm.ch = live
 	}
 }
